@@ -52,7 +52,7 @@ sweep(void)
 			continue;
 		noted[i] = 1;
 		if (ukind[i] == 2 && KRESULT(i) == 0) {
-			nni_msg *m = nni_aio_get_msg(&uaio[i]);
+			nni_msg *m = nni_aio_get_msg(&uaio_at(i));
 			CHECK(m != NULL && m->tag >= 1 && m->tag <= nw, "a received message came from the peer");
 			CHECK(wvalid[m->tag - 1], "C11: a message with a malformed or over-limit hop header is never delivered");
 			wdeliv[m->tag - 1]++;
@@ -63,16 +63,16 @@ sweep(void)
 			CHECK(nni_msg_header_len(m) == 4 && nni_msg_header_peek_u32(m) == (u32) wvalid[m->tag - 1], "delivered message carries the received hop count in its header");
 #endif
 			nni_msg_free(m);
-			nni_aio_set_msg(&uaio[i], NULL);
+			nni_aio_set_msg(&uaio_at(i), NULL);
 		}
 		if (ukind[i] == 1) {
 			if (KRESULT(i) == 0) {
-				CHECK(nni_aio_get_msg(&uaio[i]) == NULL, "C03: accepted send is owned by the library");
+				CHECK(nni_aio_get_msg(&uaio_at(i)) == NULL, "C03: accepted send is owned by the library");
 				accepted[i] = ++accept_seq;
 			} else {
-				CHECK(nni_aio_get_msg(&uaio[i]) == umsg[i], "C03: failed send leaves the message with the caller");
+				CHECK(nni_aio_get_msg(&uaio_at(i)) == umsg[i], "C03: failed send leaves the message with the caller");
 				nni_msg_free(umsg[i]);
-				nni_aio_set_msg(&uaio[i], NULL);
+				nni_aio_set_msg(&uaio_at(i), NULL);
 			}
 		}
 	}
@@ -85,7 +85,7 @@ monitor(void)
 	for (int i = 0; i < MAXU; i++) {
 		if (!uaio_used[i])
 			continue;
-		CHECK(env_aio_completed(&uaio[i]) <= 1, "operation completes at most once");
+		CHECK(env_aio_completed(&uaio_at(i)) <= 1, "operation completes at most once");
 		if (ukind[i] == 1 && accepted[i] && !sock_closed) {
 			int places = in_q(&sock.wmq, umsg_id[i]) + delivered[i] + lost[i];
 			for (int p = 0; p < MAXP; p++)
@@ -110,7 +110,10 @@ ev_attach(int p)
 	if (kstop)
 		return;
 	env_pipe_init(&kpipe[p], 100 + p, PEER_ID);
-	memset(&pd[p], 0, sizeof(pd[p]));
+	{
+		static const __typeof__(pd[0]) pd_zero;
+		pd[p] = pd_zero; /* struct assignment keeps field sensitivity, memset does not */
+	}
 	CHECK(P(pipe_init)(&pd[p], &kpipe[p], &sock) == 0, "pipe_init");
 	int rv = P(pipe_start)(&pd[p]);
 	if (attached >= 0) {
@@ -141,9 +144,9 @@ ev_send(int i, int blocking)
 	ukind[i]   = 1;
 	umsg[i]    = kmsg(2);
 	umsg_id[i] = umsg[i]->id;
-	nni_aio_set_msg(&uaio[i], umsg[i]);
-	env_aio_submit(&uaio[i]);
-	P(sock_send)(&sock, &uaio[i]);
+	nni_aio_set_msg(&uaio_at(i), umsg[i]);
+	env_aio_submit(&uaio_at(i));
+	P(sock_send)(&sock, &uaio_at(i));
 	if (can)
 		CHECK(KDONE(i) && KRESULT(i) == 0, "C15: send is accepted at once when the peer is idle or the buffer has room");
 	else if (!blocking)
@@ -163,8 +166,8 @@ ev_recv(int i, int blocking)
 	bool can = !nni_lmq_empty(&sock.rmq) || sock.rd_ready;
 	kuaio_prepare(i, blocking);
 	ukind[i] = 2;
-	env_aio_submit(&uaio[i]);
-	P(sock_recv)(&sock, &uaio[i]);
+	env_aio_submit(&uaio_at(i));
+	P(sock_recv)(&sock, &uaio_at(i));
 	if (can)
 		CHECK(KDONE(i) && KRESULT(i) == 0, "C15: receive succeeds at once when a message is available");
 	else if (!blocking)
@@ -347,7 +350,6 @@ ev_close(void)
 void
 harness(void)
 {
-	memset(&sock, 0, sizeof(sock));
 #ifdef PAIR0
 	pair0_sock_init(&sock, NULL);
 #else
